@@ -87,6 +87,10 @@ video_sink_thread(struct video_sink_s* const self)
 Error:
     LOGE("[stream %d]: SINK: Exiting thread (Error)", self->stream_id);
     self->sig_stop_source(self);
+    // Nobody reads this queue anymore: a writer that is (or gets) blocked on
+    // it because it is full must be released, or stopping would wait for it
+    // forever. Writes are accepted again by the next start.
+    channel_accept_writes(&self->in, 0);
     channel_read_unmap(&self->in, &self->reader, 0);
     storage_stop(self->storage);
     self->is_running = 0;
